@@ -8,6 +8,14 @@
 (* parties overwrites it).  Instances A and B; public operations: construct, *)
 (* fuzz (short / long: a long run makes the tuner raise the cap), parse.     *)
 (*                                                                           *)
+(* Two more pieces of process-wide state: the default operator objects (one  *)
+(* SimpleMutation / crossover object, created when the module is imported,   *)
+(* serves every search that does not pass its own) and whatever the spec     *)
+(* reader keeps between calls (files named in include()).                    *)
+(* OpState   = "stateless" the shared operator object keeps nothing          *)
+(*             "ratchet"   it keeps a budget that follows the individuals    *)
+(* IncScope  = "instance"  an include name is resolved for each spec object  *)
+(*             "process"   the first resolution of a name serves the process *)
 (* CapScope  = "leak"   the cap stays as the last run left it (pinned commit)*)
 (*             "scoped" a run restores the cap when it ends                  *)
 (* Property C18 (NonInterference): what B observes - here the cap in force   *)
@@ -16,31 +24,38 @@
 (***************************************************************************)
 EXTENDS Naturals, Sequences, TLC, Json
 
-CONSTANTS CapScope, MaxOps, Record, DefaultCap, RaisedCap
-VARIABLES capG, envKey, made, hist, obsB
-vars == <<capG, envKey, made, hist, obsB>>
+CONSTANTS CapScope, OpState, IncScope, MaxOps, Record, DefaultCap, RaisedCap
+VARIABLES capG, envKey, made, hist, obsB, opG, incG, gram
+vars == <<capG, envKey, made, hist, obsB, opG, incG, gram>>
 
-Init == capG = DefaultCap /\ envKey = "none" /\ made = {} /\ hist = <<>> /\ obsB = <<>>
+Init == /\ capG = DefaultCap /\ envKey = "none" /\ made = {} /\ hist = <<>> /\ obsB = <<>>
+        /\ opG = DefaultCap          \* budget kept by the shared default operator object
+        /\ incG = "none"             \* whose file the shared include name is bound to
+        /\ gram = [x \in {"A", "B"} |-> "none"]   \* whose included rules instance x was built from
+Obs == [cap |-> capG, env |-> envKey, op |-> opG, gram |-> gram["B"]]
 
 Log(op, x, long) == IF Record THEN Len(hist) < MaxOps /\ hist' = Append(hist, [op |-> op, x |-> x, long |-> long])
                     ELSE Len(hist) < MaxOps /\ hist' = Append(hist, [op |-> op, x |-> x, long |-> long])
 
 Construct(x) == /\ x \notin made /\ made' = made \cup {x}
                 /\ envKey' = x                      \* the newest spec becomes the current environment
-                /\ UNCHANGED <<capG, obsB>> /\ Log("make", x, FALSE)
+                /\ incG' = IF IncScope = "process" /\ incG # "none" THEN incG ELSE x
+                /\ gram' = [gram EXCEPT ![x] = incG']
+                /\ UNCHANGED <<capG, obsB, opG>> /\ Log("make", x, FALSE)
 Fuzz(x, long) == /\ x \in made
                  /\ capG' = IF long /\ CapScope = "leak" THEN RaisedCap ELSE capG     \* the tuner raised it during the run
-                 /\ obsB' = IF x = "B" THEN Append(obsB, [cap |-> capG, env |-> envKey]) ELSE obsB
-                 /\ UNCHANGED <<envKey, made>> /\ Log("fuzz", x, long)
+                 /\ opG' = IF long /\ OpState = "ratchet" THEN RaisedCap ELSE opG       \* the operator saw large individuals
+                 /\ obsB' = IF x = "B" THEN Append(obsB, Obs) ELSE obsB
+                 /\ UNCHANGED <<envKey, made, incG, gram>> /\ Log("fuzz", x, long)
 Parse(x) == /\ x \in made
-            /\ obsB' = IF x = "B" THEN Append(obsB, [cap |-> capG, env |-> envKey]) ELSE obsB
-            /\ UNCHANGED <<capG, envKey, made>> /\ Log("parse", x, FALSE)
+            /\ obsB' = IF x = "B" THEN Append(obsB, Obs) ELSE obsB
+            /\ UNCHANGED <<capG, envKey, made, opG, incG, gram>> /\ Log("parse", x, FALSE)
 
 Next == \E x \in {"A", "B"} : Construct(x) \/ Parse(x) \/ \E long \in BOOLEAN : Fuzz(x, long)
 Spec == Init /\ [][Next]_vars
 
 (* B always operates under the default cap: nothing another instance did is visible to it *)
-NonInterference == \A k \in 1..Len(obsB) : obsB[k].cap = DefaultCap
+NonInterference == \A k \in 1..Len(obsB) : obsB[k].cap = DefaultCap /\ obsB[k].op = DefaultCap /\ obsB[k].gram = "B"
 (* histories that end with an operation on B (for replay): activity on A, then B *)
 EndsOnB == hist # <<>> /\ hist[Len(hist)].x = "B" /\ hist[Len(hist)].op # "make"
 Emit == ~Record \/ ~EndsOnB \/ PrintT(<<"HIST", ToJson(hist)>>)
